@@ -23,6 +23,8 @@ def harnesses(tier):
         {'name': 'earlier-view-N3', 'fn': graph.h_stale_view, 'cfg': {'N': 3, 'nW': 1, 'props': ['C01'], 'ops1': ['ch_remove', 'wbs_remove', 'set_parent'], 'ops2': ['ch_sort', 'ch_reorder', 'ch_insert', 'ch_move', 'ch_remove']}},
         {'name': 'step-N3-W2', 'fn': graph.h_step,
          'cfg': {'prop': 'C01', 'N': 3, 'nW': 2, 'seqlen': 3, 'ops': graph.ALL_OPS}},
-        {'name': 'step-N4-W1', 'fn': graph.h_step,
-         'cfg': {'prop': 'C01', 'N': 4, 'nW': 1, 'seqlen': 1, 'ops': graph.ALL_OPS}},
+        {'name': 'step-N4-W1-hierarchy-ops', 'fn': graph.h_step,
+         'cfg': {'prop': 'C01', 'N': 4, 'nW': 1, 'seqlen': 1, 'ops': graph.HIER_OPS}},
+        {'name': 'step-N4-W1-link-ops', 'fn': graph.h_step,
+         'cfg': {'prop': 'C01', 'N': 4, 'nW': 1, 'seqlen': 1, 'ops': graph.LINK_OPS + ['list_lshift', 'list_rshift']}},
     ]
